@@ -185,8 +185,8 @@ Definition filters_for (blocks : list blockJ) (rs re target fsize : Z) (c : opti
   match nth_error blocks i with
   | None => {| fs_kind := KInvalid; fs_read := None; fs_chunk := c; fs_held := None |}
   | Some b =>
-      if negb (validate_fs b rs re) then {| fs_kind := KInvalid; fs_read := None; fs_chunk := c; fs_held := held c b |}
-      else if bfs b =? 0 then {| fs_kind := KEmpty; fs_read := None; fs_chunk := c; fs_held := held c b |}
+      if negb (validate_fs b rs re) then {| fs_kind := KInvalid; fs_read := None; fs_chunk := c; fs_held := None |}
+      else if bfs b =? 0 then {| fs_kind := KEmpty; fs_read := None; fs_chunk := c; fs_held := None |}
       else
         match held c b with
         | Some h => {| fs_kind := KSection; fs_read := None; fs_chunk := c; fs_held := Some h |}
